@@ -23,6 +23,7 @@ type AttrCache struct {
 	maxSize        int           // Maximum number of entries in the cache
 	accessList     *list.List    // Doubly-linked list for O(1) LRU tracking
 	enableNegative bool          // Enable negative caching
+	gen            uint64        // bumped by every invalidation; see Generation / PutIfCurrent
 }
 
 // CachedAttrs represents cached file attributes with expiration
@@ -198,10 +199,33 @@ func (c *AttrCache) removeFromAccessLog(path string) {
 	cached.listElement = nil
 }
 
+// Generation returns a token that changes whenever anything is invalidated. A caller that
+// reads the backend and then caches what it saw takes the token BEFORE the backend read and
+// stores with PutIfCurrent: if an invalidation ran in between (the object was changed by a
+// concurrent request), the stale result is not cached.
+func (c *AttrCache) Generation() uint64 {
+	c.mu.RLock()
+	defer c.mu.RUnlock()
+	return c.gen
+}
+
+// PutIfCurrent is Put, except that nothing is stored when an invalidation has happened
+// since gen was obtained from Generation.
+func (c *AttrCache) PutIfCurrent(path string, attrs *NFSAttrs, gen uint64) {
+	c.put(path, attrs, gen, true)
+}
+
 // Put adds or updates cached attributes
 func (c *AttrCache) Put(path string, attrs *NFSAttrs) {
+	c.put(path, attrs, 0, false)
+}
+
+func (c *AttrCache) put(path string, attrs *NFSAttrs, gen uint64, check bool) {
 	c.mu.Lock()
 	defer c.mu.Unlock()
+	if check && gen != c.gen {
+		return
+	}
 
 	// Check if entry already exists
 	existing, exists := c.cache[path]
@@ -250,11 +274,24 @@ func (c *AttrCache) Put(path string, attrs *NFSAttrs) {
 	c.updateAccessLog(path)
 }
 
+// PutNegativeIfCurrent is PutNegative, except that nothing is stored when an invalidation
+// has happened since gen was obtained from Generation.
+func (c *AttrCache) PutNegativeIfCurrent(path string, gen uint64) {
+	c.putNegative(path, gen, true)
+}
+
 // PutNegative adds a negative cache entry (file not found)
 func (c *AttrCache) PutNegative(path string) {
+	c.putNegative(path, 0, false)
+}
+
+func (c *AttrCache) putNegative(path string, gen uint64, check bool) {
 	// Only store negative entries if enabled
 	c.mu.Lock()
 	defer c.mu.Unlock()
+	if check && gen != c.gen {
+		return
+	}
 
 	// Check the switch under the write lock: a concurrent ConfigureNegativeCaching(false)
 	// must not be followed by the insertion of a negative entry it could no longer purge.
@@ -303,6 +340,7 @@ func (c *AttrCache) PutNegative(path string) {
 func (c *AttrCache) Invalidate(path string) {
 	c.mu.Lock()
 	defer c.mu.Unlock()
+	c.gen++
 
 	c.removeFromAccessLog(path)
 	delete(c.cache, path)
@@ -313,6 +351,7 @@ func (c *AttrCache) Invalidate(path string) {
 func (c *AttrCache) InvalidateTree(dirPath string) {
 	c.mu.Lock()
 	defer c.mu.Unlock()
+	c.gen++
 
 	prefix := strings.TrimSuffix(dirPath, "/") + "/"
 	for path := range c.cache {
@@ -327,6 +366,7 @@ func (c *AttrCache) InvalidateTree(dirPath string) {
 func (c *AttrCache) Clear() {
 	c.mu.Lock()
 	defer c.mu.Unlock()
+	c.gen++
 
 	c.cache = make(map[string]*CachedAttrs)
 	c.accessList = list.New()
@@ -375,6 +415,7 @@ func (c *AttrCache) NegativeStats() int {
 func (c *AttrCache) InvalidateNegativeInDir(dirPath string) {
 	c.mu.Lock()
 	defer c.mu.Unlock()
+	c.gen++
 
 	// Find all negative entries that are children of this directory
 	toDelete := make([]string, 0)
@@ -486,6 +527,7 @@ type DirCache struct {
 	maxDirSize int
 	hits       uint64
 	misses     uint64
+	gen        uint64 // bumped by every invalidation; see Generation / PutIfCurrent
 }
 
 // CachedDirEntry represents cached directory entries with expiration
@@ -559,10 +601,31 @@ func (c *DirCache) Get(path string) ([]os.FileInfo, bool) {
 	return entries, true
 }
 
+// Generation returns a token that changes whenever a listing is invalidated (see
+// AttrCache.Generation).
+func (c *DirCache) Generation() uint64 {
+	c.mu.RLock()
+	defer c.mu.RUnlock()
+	return c.gen
+}
+
+// PutIfCurrent is Put, except that nothing is stored when an invalidation has happened
+// since gen was obtained from Generation.
+func (c *DirCache) PutIfCurrent(path string, entries []os.FileInfo, gen uint64) {
+	c.put(path, entries, gen, true)
+}
+
 // Put adds or updates cached directory entries
 func (c *DirCache) Put(path string, entries []os.FileInfo) {
+	c.put(path, entries, 0, false)
+}
+
+func (c *DirCache) put(path string, entries []os.FileInfo, gen uint64, check bool) {
 	c.mu.Lock()
 	defer c.mu.Unlock()
+	if check && gen != c.gen {
+		return
+	}
 
 	// Don't cache directories that exceed the maximum size
 	if len(entries) > c.maxDirSize {
@@ -636,6 +699,7 @@ func (c *DirCache) removeFromAccessList(path string) {
 func (c *DirCache) Invalidate(path string) {
 	c.mu.Lock()
 	defer c.mu.Unlock()
+	c.gen++
 
 	c.removeFromAccessList(path)
 	delete(c.entries, path)
@@ -645,6 +709,7 @@ func (c *DirCache) Invalidate(path string) {
 func (c *DirCache) InvalidateTree(dirPath string) {
 	c.mu.Lock()
 	defer c.mu.Unlock()
+	c.gen++
 
 	prefix := strings.TrimSuffix(dirPath, "/") + "/"
 	for path := range c.entries {
@@ -659,6 +724,7 @@ func (c *DirCache) InvalidateTree(dirPath string) {
 func (c *DirCache) Clear() {
 	c.mu.Lock()
 	defer c.mu.Unlock()
+	c.gen++
 
 	c.entries = make(map[string]*CachedDirEntry)
 	c.accessList = list.New()
